@@ -38,7 +38,7 @@ impl VM {
             //@VACUITY
             binop_step(*old(self), *final(self), r, generic_sem(OpCode::Add)),
     {
-//@ARM file=vm.rs fn=run impl=VM arm="OpCode::Add" rules="R1;R4"
+//@ARM file=vm.rs fn=run_code impl=VM arm="OpCode::Add" rules="R1;R4"
         Ok(())
     }
 
@@ -48,7 +48,7 @@ impl VM {
             //@VACUITY
             binop_step(*old(self), *final(self), r, generic_sem(OpCode::Subtract)),
     {
-//@ARM file=vm.rs fn=run impl=VM arm="OpCode::Subtract" rules="R1;R4"
+//@ARM file=vm.rs fn=run_code impl=VM arm="OpCode::Subtract" rules="R1;R4"
         Ok(())
     }
 
@@ -58,7 +58,7 @@ impl VM {
             //@VACUITY
             binop_step(*old(self), *final(self), r, generic_sem(OpCode::Divide)),
     {
-//@ARM file=vm.rs fn=run impl=VM arm="OpCode::Divide" rules="R1;R4"
+//@ARM file=vm.rs fn=run_code impl=VM arm="OpCode::Divide" rules="R1;R4"
         Ok(())
     }
 
@@ -68,7 +68,7 @@ impl VM {
             //@VACUITY
             binop_step(*old(self), *final(self), r, generic_sem(OpCode::Multiply)),
     {
-//@ARM file=vm.rs fn=run impl=VM arm="OpCode::Multiply" rules="R1;R4"
+//@ARM file=vm.rs fn=run_code impl=VM arm="OpCode::Multiply" rules="R1;R4"
         Ok(())
     }
 
@@ -78,7 +78,7 @@ impl VM {
             //@VACUITY
             binop_step(*old(self), *final(self), r, generic_sem(OpCode::Gt)),
     {
-//@ARM file=vm.rs fn=run impl=VM arm="OpCode::Gt" rules="R1;R4"
+//@ARM file=vm.rs fn=run_code impl=VM arm="OpCode::Gt" rules="R1;R4"
         Ok(())
     }
 
@@ -88,7 +88,7 @@ impl VM {
             //@VACUITY
             binop_step(*old(self), *final(self), r, generic_sem(OpCode::Gte)),
     {
-//@ARM file=vm.rs fn=run impl=VM arm="OpCode::Gte" rules="R1;R4"
+//@ARM file=vm.rs fn=run_code impl=VM arm="OpCode::Gte" rules="R1;R4"
         Ok(())
     }
 
@@ -98,7 +98,7 @@ impl VM {
             //@VACUITY
             binop_step(*old(self), *final(self), r, generic_sem(OpCode::Lt)),
     {
-//@ARM file=vm.rs fn=run impl=VM arm="OpCode::Lt" rules="R1;R4"
+//@ARM file=vm.rs fn=run_code impl=VM arm="OpCode::Lt" rules="R1;R4"
         Ok(())
     }
 
@@ -108,7 +108,7 @@ impl VM {
             //@VACUITY
             binop_step(*old(self), *final(self), r, generic_sem(OpCode::Lte)),
     {
-//@ARM file=vm.rs fn=run impl=VM arm="OpCode::Lte" rules="R1;R4"
+//@ARM file=vm.rs fn=run_code impl=VM arm="OpCode::Lte" rules="R1;R4"
         Ok(())
     }
 
@@ -118,7 +118,7 @@ impl VM {
             //@VACUITY
             binop_step(*old(self), *final(self), r, generic_sem(OpCode::Eq)),
     {
-//@ARM file=vm.rs fn=run impl=VM arm="OpCode::Eq" rules="R1;R4"
+//@ARM file=vm.rs fn=run_code impl=VM arm="OpCode::Eq" rules="R1;R4"
         Ok(())
     }
 
@@ -128,7 +128,7 @@ impl VM {
             //@VACUITY
             binop_step(*old(self), *final(self), r, generic_sem(OpCode::Neq)),
     {
-//@ARM file=vm.rs fn=run impl=VM arm="OpCode::Neq" rules="R1;R4"
+//@ARM file=vm.rs fn=run_code impl=VM arm="OpCode::Neq" rules="R1;R4"
         Ok(())
     }
 
@@ -138,7 +138,7 @@ impl VM {
             //@VACUITY
             binop_step(*old(self), *final(self), r, generic_sem(OpCode::Modulo)),
     {
-//@ARM file=vm.rs fn=run impl=VM arm="OpCode::Modulo" rules="R1;R4"
+//@ARM file=vm.rs fn=run_code impl=VM arm="OpCode::Modulo" rules="R1;R4"
         Ok(())
     }
 
@@ -148,7 +148,7 @@ impl VM {
             //@VACUITY
             binop_step(*old(self), *final(self), r, generic_sem(OpCode::And)),
     {
-//@ARM file=vm.rs fn=run impl=VM arm="OpCode::And" rules="R1;R4"
+//@ARM file=vm.rs fn=run_code impl=VM arm="OpCode::And" rules="R1;R4"
         Ok(())
     }
 
@@ -158,7 +158,7 @@ impl VM {
             //@VACUITY
             binop_step(*old(self), *final(self), r, generic_sem(OpCode::Or)),
     {
-//@ARM file=vm.rs fn=run impl=VM arm="OpCode::Or" rules="R1;R4"
+//@ARM file=vm.rs fn=run_code impl=VM arm="OpCode::Or" rules="R1;R4"
         Ok(())
     }
 
@@ -171,7 +171,7 @@ impl VM {
             //@VACUITY
             fused_step(*old(self), *final(self), constants@, r, fused_sem(OpCode::GtLocalConst)),
     {
-//@ARM file=vm.rs fn=run impl=VM arm="OpCode::GtLocalConst" rules="R1;R4"
+//@ARM file=vm.rs fn=run_code impl=VM arm="OpCode::GtLocalConst" rules="R1;R4"
         Ok(())
     }
 
@@ -184,7 +184,7 @@ impl VM {
             //@VACUITY
             fused_step(*old(self), *final(self), constants@, r, fused_sem(OpCode::GteLocalConst)),
     {
-//@ARM file=vm.rs fn=run impl=VM arm="OpCode::GteLocalConst" rules="R1;R4"
+//@ARM file=vm.rs fn=run_code impl=VM arm="OpCode::GteLocalConst" rules="R1;R4"
         Ok(())
     }
 
@@ -197,7 +197,7 @@ impl VM {
             //@VACUITY
             fused_step(*old(self), *final(self), constants@, r, fused_sem(OpCode::LtLocalConst)),
     {
-//@ARM file=vm.rs fn=run impl=VM arm="OpCode::LtLocalConst" rules="R1;R4"
+//@ARM file=vm.rs fn=run_code impl=VM arm="OpCode::LtLocalConst" rules="R1;R4"
         Ok(())
     }
 
@@ -210,7 +210,7 @@ impl VM {
             //@VACUITY
             fused_step(*old(self), *final(self), constants@, r, fused_sem(OpCode::LteLocalConst)),
     {
-//@ARM file=vm.rs fn=run impl=VM arm="OpCode::LteLocalConst" rules="R1;R4"
+//@ARM file=vm.rs fn=run_code impl=VM arm="OpCode::LteLocalConst" rules="R1;R4"
         Ok(())
     }
 
@@ -223,7 +223,7 @@ impl VM {
             //@VACUITY
             fused_step(*old(self), *final(self), constants@, r, fused_sem(OpCode::EqLocalConst)),
     {
-//@ARM file=vm.rs fn=run impl=VM arm="OpCode::EqLocalConst" rules="R1;R4"
+//@ARM file=vm.rs fn=run_code impl=VM arm="OpCode::EqLocalConst" rules="R1;R4"
         Ok(())
     }
 
@@ -236,7 +236,7 @@ impl VM {
             //@VACUITY
             fused_step(*old(self), *final(self), constants@, r, fused_sem(OpCode::NeqLocalConst)),
     {
-//@ARM file=vm.rs fn=run impl=VM arm="OpCode::NeqLocalConst" rules="R1;R4"
+//@ARM file=vm.rs fn=run_code impl=VM arm="OpCode::NeqLocalConst" rules="R1;R4"
         Ok(())
     }
 
@@ -249,7 +249,7 @@ impl VM {
             //@VACUITY
             fused_step(*old(self), *final(self), constants@, r, fused_sem(OpCode::AddLocalConst)),
     {
-//@ARM file=vm.rs fn=run impl=VM arm="OpCode::AddLocalConst" rules="R1;R4"
+//@ARM file=vm.rs fn=run_code impl=VM arm="OpCode::AddLocalConst" rules="R1;R4"
         Ok(())
     }
 
@@ -262,7 +262,7 @@ impl VM {
             //@VACUITY
             fused_step(*old(self), *final(self), constants@, r, fused_sem(OpCode::SubtractLocalConst)),
     {
-//@ARM file=vm.rs fn=run impl=VM arm="OpCode::SubtractLocalConst" rules="R1;R4"
+//@ARM file=vm.rs fn=run_code impl=VM arm="OpCode::SubtractLocalConst" rules="R1;R4"
         Ok(())
     }
 
@@ -275,7 +275,7 @@ impl VM {
             //@VACUITY
             fused_step(*old(self), *final(self), constants@, r, fused_sem(OpCode::MultiplyLocalConst)),
     {
-//@ARM file=vm.rs fn=run impl=VM arm="OpCode::MultiplyLocalConst" rules="R1;R4"
+//@ARM file=vm.rs fn=run_code impl=VM arm="OpCode::MultiplyLocalConst" rules="R1;R4"
         Ok(())
     }
 
@@ -288,7 +288,7 @@ impl VM {
             //@VACUITY
             fused_step(*old(self), *final(self), constants@, r, fused_sem(OpCode::DivideLocalConst)),
     {
-//@ARM file=vm.rs fn=run impl=VM arm="OpCode::DivideLocalConst" rules="R1;R4"
+//@ARM file=vm.rs fn=run_code impl=VM arm="OpCode::DivideLocalConst" rules="R1;R4"
         Ok(())
     }
 
@@ -301,7 +301,7 @@ impl VM {
             //@VACUITY
             fused_step(*old(self), *final(self), constants@, r, fused_sem(OpCode::ModuloLocalConst)),
     {
-//@ARM file=vm.rs fn=run impl=VM arm="OpCode::ModuloLocalConst" rules="R1;R4"
+//@ARM file=vm.rs fn=run_code impl=VM arm="OpCode::ModuloLocalConst" rules="R1;R4"
         Ok(())
     }
 
@@ -312,7 +312,7 @@ impl VM {
             r is Ok, final(self).stack@ == old(self).stack@.push(constants@[u16_at(old(self).instructions@, old(self).ip as int)]),
             final(self).ip == old(self).ip + 2, same_but_ip_stack(*old(self), *final(self)),
     {
-//@ARM file=vm.rs fn=run impl=VM arm="OpCode::Const" rules="R1;R4"
+//@ARM file=vm.rs fn=run_code impl=VM arm="OpCode::Const" rules="R1;R4"
         Ok(())
     }
 
@@ -335,7 +335,7 @@ impl VM {
             final(self).frames == old(self).frames, final(self).instructions == old(self).instructions, final(self).bp == old(self).bp,
     {
 //@LOOP 1 invariant self.stack@ == old(self).stack@.drop_last(), self.ip == old(self).ip + 2, self.frames == old(self).frames, self.instructions == old(self).instructions, self.bp == old(self).bp, idx == u16_at(old(self).instructions@, old(self).ip as int), idx <= 0xFFFF, self.globals@.len() >= old(self).globals@.len(), self.globals@.len() <= (if old(self).globals@.len() > idx { old(self).globals@.len() as int } else { idx + 1 }), forall|i: int| 0 <= i < old(self).globals@.len() ==> self.globals@[i] == old(self).globals@[i], forall|i: int| old(self).globals@.len() <= i < self.globals@.len() ==> self.globals@[i] == spec_null(), decreases idx + 1 - self.globals@.len()
-//@ARM file=vm.rs fn=run impl=VM arm="OpCode::SetGlobal" rules="R1;R4;R3[self.read_u16() as usize=>cast_u16_usize(self.read_u16())]"
+//@ARM file=vm.rs fn=run_code impl=VM arm="OpCode::SetGlobal" rules="R1;R4;R3[self.read_u16() as usize=>cast_u16_usize(self.read_u16())]"
         Ok(())
     }
 
@@ -351,7 +351,7 @@ impl VM {
                 } else { r matches Err(Error::ReferenceError(_)) }
             }),
     {
-//@ARM file=vm.rs fn=run impl=VM arm="OpCode::GetGlobal" rules="R1;R4;R3[idx as usize=>cast_u16_usize(idx)]"
+//@ARM file=vm.rs fn=run_code impl=VM arm="OpCode::GetGlobal" rules="R1;R4;R3[idx as usize=>cast_u16_usize(idx)]"
         Ok(())
     }
 
@@ -364,7 +364,7 @@ impl VM {
             final(self).stack@ == old(self).stack@.drop_last().update(old(self).bp as int + u16_at(old(self).instructions@, old(self).ip as int), old(self).stack@.last()),
             final(self).ip == old(self).ip + 2, same_but_ip_stack(*old(self), *final(self)),
     {
-//@ARM file=vm.rs fn=run impl=VM arm="OpCode::SetLocal" rules="R1;R4"
+//@ARM file=vm.rs fn=run_code impl=VM arm="OpCode::SetLocal" rules="R1;R4"
         Ok(())
     }
 
@@ -377,7 +377,7 @@ impl VM {
             final(self).stack@ == old(self).stack@.push(old(self).stack@[old(self).bp as int + u16_at(old(self).instructions@, old(self).ip as int)]),
             final(self).ip == old(self).ip + 2, same_but_ip_stack(*old(self), *final(self)),
     {
-//@ARM file=vm.rs fn=run impl=VM arm="OpCode::GetLocal" rules="R1;R4"
+//@ARM file=vm.rs fn=run_code impl=VM arm="OpCode::GetLocal" rules="R1;R4"
         Ok(())
     }
 
@@ -388,7 +388,7 @@ impl VM {
             //@VACUITY
             r is Ok, final(self).ip == u16_at(old(self).instructions@, old(self).ip as int), same_but_ip(*old(self), *final(self)),
     {
-//@ARM file=vm.rs fn=run impl=VM arm="OpCode::Jump" rules="R1;R4"
+//@ARM file=vm.rs fn=run_code impl=VM arm="OpCode::Jump" rules="R1;R4"
         Ok(())
     }
 
@@ -408,7 +408,7 @@ impl VM {
                 }
             }),
     {
-//@ARM file=vm.rs fn=run impl=VM arm="OpCode::JumpIfFalse" rules="R1;R4"
+//@ARM file=vm.rs fn=run_code impl=VM arm="OpCode::JumpIfFalse" rules="R1;R4"
         Ok(())
     }
 
@@ -419,7 +419,7 @@ impl VM {
             //@VACUITY
             r is Ok, *final(final_result) == old(self).stack@.last(), final(self).stack@ == old(self).stack@.drop_last(), same_but_stack(*old(self), *final(self)),
     {
-//@ARM file=vm.rs fn=run impl=VM arm="OpCode::Pop" rules="R1;R4;R7"
+//@ARM file=vm.rs fn=run_code impl=VM arm="OpCode::Pop" rules="R1;R4;R7"
         Ok(())
     }
 
@@ -428,7 +428,7 @@ impl VM {
             //@VACUITY
             r is Ok, final(self).stack@ == old(self).stack@.push(spec_null()), same_but_stack(*old(self), *final(self)),
     {
-//@ARM file=vm.rs fn=run impl=VM arm="OpCode::Null" rules="R1;R4"
+//@ARM file=vm.rs fn=run_code impl=VM arm="OpCode::Null" rules="R1;R4"
         Ok(())
     }
     fn arm_true(&mut self) -> (r: Result<(), Error>)
@@ -436,7 +436,7 @@ impl VM {
             //@VACUITY
             r is Ok, final(self).stack@ == old(self).stack@.push(spec_mk_bool(true)), same_but_stack(*old(self), *final(self)),
     {
-//@ARM file=vm.rs fn=run impl=VM arm="OpCode::True" rules="R1;R4"
+//@ARM file=vm.rs fn=run_code impl=VM arm="OpCode::True" rules="R1;R4"
         Ok(())
     }
     fn arm_false(&mut self) -> (r: Result<(), Error>)
@@ -444,7 +444,7 @@ impl VM {
             //@VACUITY
             r is Ok, final(self).stack@ == old(self).stack@.push(spec_mk_bool(false)), same_but_stack(*old(self), *final(self)),
     {
-//@ARM file=vm.rs fn=run impl=VM arm="OpCode::False" rules="R1;R4"
+//@ARM file=vm.rs fn=run_code impl=VM arm="OpCode::False" rules="R1;R4"
         Ok(())
     }
 
@@ -460,7 +460,7 @@ impl VM {
                 }
             }),
     {
-//@ARM file=vm.rs fn=run impl=VM arm="OpCode::Not" rules="R1;R4"
+//@ARM file=vm.rs fn=run_code impl=VM arm="OpCode::Not" rules="R1;R4"
         Ok(())
     }
 
@@ -480,7 +480,7 @@ impl VM {
                 &&& (spec_tag(x) != Type::Int && spec_tag(x) != Type::Float ==> r matches Err(Error::TypeError(_)))
             }),
     {
-//@ARM file=vm.rs fn=run impl=VM arm="OpCode::Negate" rules="R1;R4;R6n"
+//@ARM file=vm.rs fn=run_code impl=VM arm="OpCode::Negate" rules="R1;R4;R6n"
         Ok(())
     }
 
@@ -502,7 +502,7 @@ impl VM {
             }),
     {
 //@LOOP 1 invariant old(self).stack@.len() >= num_args, num_args <= 255, args@.len() == __it.index@, self.stack@ =~= old(self).stack@.subrange(0, old(self).stack@.len() - __it.index@), self.ip == old(self).ip + 2, same_but_ip_stack(*old(self), *self), forall|j: int| 0 <= j < args@.len() ==> args@[j] == old(self).stack@[old(self).stack@.len() - 1 - j],
-//@ARM file=vm.rs fn=run impl=VM arm="OpCode::CallBuiltin" rules="R8[unsafe { std::mem::transmute::<u8, Builtin>(builtin) }=>builtin_from_u8(builtin)];R8[&args=>args.as_slice()];R1;R4;R10;R11;R3[self.read_u8() as usize=>cast_u8_usize(self.read_u8())]"
+//@ARM file=vm.rs fn=run_code impl=VM arm="OpCode::CallBuiltin" rules="R8[unsafe { std::mem::transmute::<u8, Builtin>(builtin) }=>builtin_from_u8(builtin)];R8[&args=>args.as_slice()];R1;R4;R10;R11;R3[self.read_u8() as usize=>cast_u8_usize(self.read_u8())]"
         Ok(())
     }
 
@@ -524,7 +524,7 @@ impl VM {
             }),
     {
 //@LOOP 1 invariant old(self).stack@.len() >= length, vec@.len() == __it.index@, self.stack@ =~= old(self).stack@.subrange(0, old(self).stack@.len() - __it.index@), self.ip == old(self).ip + 2, same_but_ip_stack(*old(self), *self), forall|j: int| 0 <= j < vec@.len() ==> vec@[j] == old(self).stack@[old(self).stack@.len() - 1 - j],
-//@ARM file=vm.rs fn=run impl=VM arm="OpCode::Array" rules="R1;R4;R10;R11;R3[length as usize=>cast_u16_usize(length)]"
+//@ARM file=vm.rs fn=run_code impl=VM arm="OpCode::Array" rules="R1;R4;R10;R11;R3[length as usize=>cast_u16_usize(length)]"
         Ok(())
     }
 
@@ -542,7 +542,7 @@ impl VM {
                 }
             }),
     {
-//@ARM file=vm.rs fn=run impl=VM arm="OpCode::IndexGet" rules="R1;R4"
+//@ARM file=vm.rs fn=run_code impl=VM arm="OpCode::IndexGet" rules="R1;R4"
         Ok(())
     }
 
@@ -561,7 +561,7 @@ impl VM {
                 }
             }),
     {
-//@ARM file=vm.rs fn=run impl=VM arm="OpCode::IndexSet" rules="R1;R4"
+//@ARM file=vm.rs fn=run_code impl=VM arm="OpCode::IndexSet" rules="R1;R4"
         Ok(())
     }
 
@@ -572,7 +572,7 @@ impl VM {
             //@VACUITY
             r is Ok, r->Ok_0 == final_result, !gc_managed(*final(gc)).contains(final_result), *final(self) == *old(self),
     {
-//@ARM file=vm.rs fn=run impl=VM arm="OpCode::Halt" rules="R1;R4"
+//@ARM file=vm.rs fn=run_code impl=VM arm="OpCode::Halt" rules="R1;R4"
     }
 
 }
